@@ -101,6 +101,9 @@ theorem setState_ext (r : Res) (s : SState) (d : ExtG) : Ext s (setState r s d).
   unfold setState
   exact Ext.emit_free _ _ rfl
 
+theorem softMaskState_ext (r : Res) (s : SState) : Ext s (softMaskState r s).1 :=
+  Ext.trans (setState_ext r s softMaskDict) (Ext.of_same _ _ rfl rfl rfl)
+
 /-! ### The bracket invariant -/
 
 /-- The emitted operators have exactly the API-level bracket stack open (marked-content frames are invisible when
@@ -335,6 +338,10 @@ theorem stepS_inv (r : Res) (s : SState) (c : Call) (st st' : List Fr) (hi : Inv
   | setState d =>
     simp [apiStep, Call.graphicsOnly, Call.textOnly] at ha; subst ha
     have he := setState_ext r s d
+    exact ⟨_, _, rfl, Inv.ext hi he, he.mark_eq⟩
+  | softMaskState =>
+    simp [apiStep, Call.graphicsOnly, Call.textOnly] at ha; subst ha
+    have he := softMaskState_ext r s
     exact ⟨_, _, rfl, Inv.ext hi he, he.mark_eq⟩
   | setBlendMode mode =>
     simp [apiStep, Call.graphicsOnly, Call.textOnly] at ha; subst ha
